@@ -247,6 +247,8 @@ class MemUnitSim:
         if self.fault[1] != "none" and self.nans + 1 == self.fault[0]:
             if self.fault[1] == "silent":
                 return ("none", 0)
+            if self.fault[1] == "stuck":
+                return ans
             if self.fault[1] == "errsame" and ans[0] == "val":
                 return ("err", ans[1])
             return ("err", 255)
@@ -291,7 +293,8 @@ class MemUnitSim:
                 self.mem[l] = v
                 if l == 2 and v == 0xAA and self.latchable:
                     self.snap = list(self.mem)
-            if not self.nobble:
+            stuck = self.fault[1] == "stuck" and name == "WriteMemoryLocation" and self.nans + 1 == self.fault[0]
+            if not self.nobble and not stuck:
                 self.dtr0 = min(l + 1, 255)
             if name == "WriteMemoryLocation":
                 ans = ("val", (v + 1) % 256 if self.echoflip else v) if ok else ("none", 0)
